@@ -43,8 +43,8 @@ J2kCritical(h) ==
   UNION { LET a == w.segs[k][2]  b == w.segs[k][3] IN {a - 2, a - 1} \cup (a..(IF b - a > 60 THEN a + 60 ELSE b)) : k \in 1..Len(w.segs) }
   \cup (IF w.ok THEN (w.next)..(w.next + 13) ELSE {})
 \* the two high-order bytes of the eight 32-bit SIZ extent fields (positions 9.. of a codestream): the quick tier
-\* pokes them with four values only - every other value just declares a gigantic image, which is outside
-\* C09's scope and costs seconds per case
+\* pokes them with four values only (the thorough tier with fifteen) - every other value just declares a gigantic
+\* image, which is outside C09's scope and costs a second per case
 J2kSizHigh(h) == IF Len(h) >= 44 /\ h[3] = 255 /\ h[4] = 81 THEN UNION {{9 + 4 * k, 10 + 4 * k} : k \in 0..7} ELSE {}
 Critical(e) == IF IsRle(e) THEN 1..64 ELSE IF IsJ2k(e) THEN J2kCritical(e.head) ELSE JpegCritical(e.head)
 
@@ -61,8 +61,8 @@ Init == t = 1 /\ o = 1 /\ phase = "hdr"
 
 Line(r) == PrintT("@@SCN|" \o ToJson(r))
 SetToSeq(S) == LET RECURSIVE F(_, _) F(R, acc) == IF R = {} THEN acc ELSE LET x == CHOOSE x \in R : \A y \in R : x <= y IN F(R \ {x}, Append(acc, x)) IN F(S, <<>>)
-Vals(e, pos) == IF Full THEN <<>> ELSE IF IsJ2k(e) /\ pos \in J2kSizHigh(e.head) THEN <<0, 1, 128, 255>>
-                ELSE IF pos \in Critical(e) THEN SetToSeq(Wide) ELSE SetToSeq(Small)
+Vals(e, pos) == IF IsJ2k(e) /\ pos \in J2kSizHigh(e.head) THEN (IF Full THEN <<0, 1, 2, 3, 4, 8, 16, 32, 64, 127, 128, 129, 192, 254, 255>> ELSE <<0, 1, 128, 255>>)
+                ELSE IF Full THEN <<>> ELSE IF pos \in Critical(e) THEN SetToSeq(Wide) ELSE SetToSeq(Small)
 Large(e) == e.len > 4096            \* third-party fixtures: quick tier only truncates and pokes a few bytes
 
 NextTemplate == t' = t + 1 /\ o' = 1 /\ phase' = "hdr"
